@@ -177,7 +177,7 @@ func (c *LRU) Put(b bgzf.Block) (evicted bgzf.Block, retained bool) {
 	}
 	used := b.Used()
 	if len(c.table) == c.cap {
-		if !used {
+		if !used || c.cap == 0 {
 			return b, false
 		}
 		d = c.root.prev.b
@@ -307,7 +307,7 @@ func (c *FIFO) Put(b bgzf.Block) (evicted bgzf.Block, retained bool) {
 	}
 	used := b.Used()
 	if len(c.table) == c.cap {
-		if !used {
+		if !used || c.cap == 0 {
 			return b, false
 		}
 		d = c.root.prev.b
@@ -439,7 +439,7 @@ func (c *Random) Put(b bgzf.Block) (evicted bgzf.Block, retained bool) {
 		return b, false
 	}
 	if len(c.table) == c.cap {
-		if !b.Used() {
+		if !b.Used() || c.cap == 0 {
 			return b, false
 		}
 		for k, v := range c.table {
